@@ -432,6 +432,49 @@ def run(ch, idx, tier):
         finally:
             plt.close("all")
 
+    def programs_op(k):
+        nonlocal compared
+        if not use_progs:
+            return misc_op(k)
+        prog_names = list(res.model.progset.programs.keys())
+        quantity = ["spending", "coverage_number", "coverage_eligible", "coverage_fraction", "coverage_capacity", "equivalent_spending"][ch.choose("programs.quantity", 6)]
+        kind = ch.choose("programs.outputs", 3)
+        if kind == 0:
+            outputs = None
+        elif kind == 1:
+            outputs = ch.shuffle("programs.subset", prog_names)[: 1 + ch.choose("programs.n", len(prog_names))]
+        else:
+            outputs = [{"package": prog_names[:2]}] + prog_names[2:3] if (quantity == "spending" and len(prog_names) >= 2) else prog_names[:1]
+        kw = {"nan_outside": ch.flip("programs.nan_outside", 0.5)}
+        tb = ch.choose("programs.t_bins", 3)
+        if tb == 1:
+            kw["t_bins"] = 2
+        elif tb == 2:
+            kw["t_bins"] = "all"
+        if ch.flip("programs.accumulate", 0.15):
+            kw["accumulate"] = "integrate"
+        history.append({"op": "PlotData.programs", "outputs": outputs, "quantity": quantity, **kw})
+        try:
+            d = at.PlotData.programs(res, outputs=outputs, quantity=quantity, **kw)
+        except Exception as e:
+            bump("query_refused")
+            return
+        outs = list(d.outputs.keys())
+        try:
+            for o in outs[:3]:
+                spec = o if o != "package" else {"package": prog_names[:2]}
+                di = at.PlotData.programs(pristine(), outputs=[spec], quantity=quantity, **kw)
+                a = [s_ for s_ in d.series if s_.output == o][0]
+                b = di.series[0]
+                compared += 1
+                bump("evaluations")
+                trace.update(np.asarray(a.vals, dtype=float).tobytes())
+                if not (_close(a.vals, b.vals) and _close(a.tvec, b.tvec)):
+                    violate("answer_depends_on_other_requests", "PlotData.programs", {"series": o, "quantity": quantity, "shared": np.asarray(a.vals)[:4].tolist(), "isolated": np.asarray(b.vals)[:4].tolist(), "call": history[-1]})
+        except Exception:
+            bump("query_refused")
+        bump("probe:program_quantities_checked")
+
     def interpolate_op(k):
         nonlocal compared
         outputs = [all_named[ch.choose("interp.out", len(all_named))]]
@@ -455,8 +498,10 @@ def run(ch, idx, tier):
     try:
         for k in range(nops):
             ch.mark(f"op{k}")
-            kind = ch.choose(f"op[{k}].kind", 8)
-            if kind <= 3:
+            kind = ch.choose(f"op[{k}].kind", 9)
+            if kind == 8:
+                programs_op(k)
+            elif kind <= 3:
                 plotdata_op(k)
             elif kind == 4:
                 cascade_vals_op(k)
